@@ -216,7 +216,7 @@ PROPS = {
         "lean": ["Knut.Properties.C08"],
         "level": "proof",
         "claim": "Lean theorems for ALL byte strings over the models of lib/syntax/parser, lib/syntax/printer (extract the fields, then render; same format strings, fmt padding counted in runes) and formatRunner.formatFile: C08_unparseable_untouched; C08_format_total (formatting a parsed file never violates a slice bound); C08_gaps_verbatim (output = the input's own gap slices interleaved with the re-rendered directives); C08_reparse_same_fields (the output parses, to the same number and kinds of directives with byte-identical dates, accounts, amounts, commodities, descriptions/paths, @accrue fields and @performance targets, annotation order normalised; the gaps of the output are the gaps of the input); C08_idempotent (format of the output is the output); C08_command (the disjunction for the command). All stages closed (open/close/price/include/single-line assertion, transactions with both addons in any order, multi-line assertions incl. the one-balance form); no _partial theorem remains. Proof: token-level grammar of every field with soundness and completeness of each parser function, decomposition of a successful ParseFile run into items, replay of the main loop on the rendered tokens, UTF-8 self-delimitation for re-decoding. Tie: syntax.FormatFile in-process and `knut format` on temp files are compared byte for byte with the model; the Lean predicate formatOK (same directives and fields by semFlat incl. macro-account kinds, gaps byte for byte) is evaluated on the two real trees; reparse and format-twice are checked on the real code for every case; unparseable files are checked untouched through the CLI.",
-        "note": "The theorems compare typed field views (viewDirective); the monitor compares the untyped semFlat of the dumped trees (which also carries the macro-account kind) - the two formalisations of \"same fields\" are proved equivalent on parsed files (C08_monitor_iff: formatOK on the two trees iff views and gaps agree; C08_monitor_sound: formatOK holds of the model; Proofs/SyntaxSem.lean: for a tree the parser returned the account kind and the annotation nodes are functions of the field bytes, semFlat = semFileV of the views, semFileV injective). Trusted: Lean kernel; axioms propext, Classical.choice, Quot.sound; fmt padding (%-*s, %10s count runes) and strings.Join as modelled (compared byte for byte); "
+        "note": "The theorems compare typed field views (viewDirective); the monitor compares the untyped semFlat of the dumped trees (which also carries the macro-account kind) - the two formalisations of \"same fields\" are not proved equivalent. Trusted: Lean kernel; axioms propext, Classical.choice, Quot.sound; fmt padding (%-*s, %10s count runes) and strings.Join as modelled (compared byte for byte); "
                 "atomic.WriteFile is C18's subject; cobra argument handling and multierr are glue (exit status compared).",
         "rule": "streams: corpus (repository journals); journal (grammar-based layouts: tabs, CRLF, trailing blanks, multi-line descriptions, Unicode account names and digits, "
                 "both addon orders, multi-line assertions, missing final newline); stress (layouts the formatter must normalise: amounts wider than 10, one-balance multi-line "
@@ -228,7 +228,7 @@ PROPS = {
                         "the parser model equals the Go parser (C07's correspondence, re-exercised here through c08format)"],
     },
     "C10": {
-        "lean": ["Knut.Properties.C10", "Knut.FactsAgree.TransDate"],
+        "lean": ["Knut.Properties.C10"],
         "level": "proof",
         "claim": "Lean theorems over the model of transaction.Create/expand (lib/model/transaction/transaction.go) with posting.Builder.Build, date.NewPartition (the C11 model, last = 0) "
                  "and Decimal.QuoRem(n, 1), for any number of bookings, all five account types, any quantities, every interval and every window with start <= end: every generated "
@@ -255,7 +255,7 @@ PROPS = {
                         "date.NewPartition behaves as the C11 model (established by C11's exhaustive correspondence)"],
     },
     "C11": {
-        "lean": ["Knut.Properties.C11", "Knut.Properties.C11Monitor", "Knut.FactsAgree.TransDate"],
+        "lean": ["Knut.Properties.C11", "Knut.Properties.C11Monitor"],
         "level": "proof",
         "claim": "Lean theorems for all windows, all six intervals and all --last values over the model of lib/common/date: periods are consecutive, "
                  "cover the window exactly, are pairwise disjoint, lie within one calendar unit, start at the window start or a unit start, --last n keeps the n "
